@@ -63,11 +63,8 @@ fn valid(seq: &[Reg]) -> bool {
             return false;
         }
         match r {
-            // A type is an event or a trigger in one direction, not both.
-            Reg::SEvent(i) if seen.contains(&Reg::STrigger(*i)) => return false,
-            Reg::STrigger(i) if seen.contains(&Reg::SEvent(*i)) => return false,
-            Reg::CEvent(i) if seen.contains(&Reg::CTrigger(*i)) => return false,
-            Reg::CTrigger(i) if seen.contains(&Reg::CEvent(*i)) => return false,
+            // (The same type may be an event and a trigger at once: the library wraps triggers in
+            // its own event type.)
             Reg::IndepEvent(i) if !seen.contains(&Reg::SEvent(*i)) => return false,
             Reg::IndepTrigger(i) if !seen.contains(&Reg::STrigger(*i)) => return false,
             _ => {}
@@ -327,6 +324,16 @@ fn random_reg(r: &mut Rng) -> Reg {
 fn random_seq(r: &mut Rng) -> Vec<Reg> {
     let n = r.range(0, 10);
     let mut seq: Vec<Reg> = vec![];
+    if r.chance(25) {
+        // One type as server event and server trigger, one of them independent.
+        let i = r.below(3) as u8;
+        seq.push(Reg::SEvent(i));
+        seq.push(Reg::STrigger(i));
+        seq.push(if r.chance(50) { Reg::IndepEvent(i) } else { Reg::IndepTrigger(i) });
+        if r.chance(50) {
+            seq.swap(0, 1);
+        }
+    }
     let mut guard = 0;
     while seq.len() < n && guard < 200 {
         guard += 1;
@@ -366,8 +373,8 @@ fn edit(r: &mut Rng, seq: &[Reg]) -> Vec<Reg> {
                     Reg::Rule(c) => Reg::RulePrio(c, 2),
                     Reg::RulePrio(c, _) => Reg::Rule((c + 1) % 6),
                     Reg::Bundle(b) => Reg::Bundle(1 - b % 2),
-                    Reg::IndepEvent(x) => Reg::IndepEvent((x + 1) % 3),
-                    Reg::IndepTrigger(x) => Reg::IndepTrigger((x + 1) % 3),
+                    Reg::IndepEvent(x) => Reg::IndepTrigger(x),
+                    Reg::IndepTrigger(x) => Reg::IndepEvent(x),
                 };
             }
             4 if !s.is_empty() => {
@@ -388,6 +395,8 @@ fn edit(r: &mut Rng, seq: &[Reg]) -> Vec<Reg> {
                     Reg::CTrigger(x) => Reg::CTrigger((x + 1) % 3),
                     Reg::Rule(c) => Reg::Rule((c + 1) % 6),
                     Reg::RulePrio(c, p) => Reg::RulePrio((c + 1) % 6, p),
+                    Reg::IndepEvent(x) => Reg::IndepEvent((x + 1) % 3),
+                    Reg::IndepTrigger(x) => Reg::IndepTrigger((x + 1) % 3),
                     x => x,
                 };
             }
@@ -466,7 +475,10 @@ impl Engine for C14 {
         prio[1] = Reg::RulePrio(1, 4);
         let mut indep = base.clone();
         indep.remove(4);
+        let both = vec![Reg::SEvent(0), Reg::STrigger(0), Reg::IndepEvent(0)];
+        let both2 = vec![Reg::SEvent(0), Reg::STrigger(0), Reg::IndepTrigger(0)];
         vec![
+            Directed { id: "independence_kind", trace: T14 { server: both, client: both2, delay: 0, late_client: false }, symptom_oracles: vec![] },
             Directed { id: "equal", trace: T14 { server: base.clone(), client: base.clone(), delay: 1, late_client: false }, symptom_oracles: vec![] },
             Directed { id: "order", trace: T14 { server: base.clone(), client: swapped, delay: 0, late_client: false }, symptom_oracles: vec![] },
             Directed { id: "priority", trace: T14 { server: base.clone(), client: prio, delay: 2, late_client: true }, symptom_oracles: vec![] },
